@@ -7,8 +7,37 @@ func judge(r *tqmon.Record) {
 	tqmon.JudgeC15(r)
 }
 
+// extra: systematic long retry chains so that the back-off clamp and the retry budget are always exercised
+func extra(seed int64) []tqmon.Case {
+	var out []tqmon.Case
+	for i := 0; i < 24; i++ {
+		c := tqmon.Gen(seed, 500000+i, "c15")
+		c.MaxRetries = []int{8, 8, 3, 2}[i%4]
+		c.MaxDelay = []int{1, 0, 1, -1}[i%4]
+		c.Objs = c.Objs[:1]
+		c.Objs[0].Adds = 1
+		c.AddOrder = []int{0}
+		c.Upload = false
+		c.BatchCalls = nil
+		c.ObjBatch = map[string][]string{}
+		c.ExtraUnknown = map[int]string{}
+		var s []string
+		for k := 0; k < c.MaxRetries+3; k++ {
+			s = append(s, "retry")
+		}
+		if i%3 == 0 {
+			s[len(s)/2] = "ok"
+		}
+		c.Adapter = map[string][]string{c.Objs[0].Oid: s}
+		c.Tags = []string{"long-retry-chain", "download"}
+		out = append(out, c)
+	}
+	return out
+}
+
 func main() {
 	tqmon.Main(tqmon.Config{
+		Extra: extra,
 		ID: "C15", Level: "fault_enumeration", Prof: "c15", Judge: judge,
 		Quick: 320, Thorough: 4000, PerChild: 20,
 		Rule: "seeded failure scripts for the real tq.TransferQueue (as C06) with lfs.transfer.maxretries in {1,2,3,8}, maxretrydelay in {0,1,default}, adapter outcomes retriable/fatal/retry-later(1s), batch 429 with Retry-After, expired and soon-expiring actions, concurrency 1-8. Oracle over the fake adapter's attempt record and hook events: attempts per oid <= 1+maxretries, no attempt after a non-retriable failure or success, retry-later and 429 Retry-After lower bounds measured from a stamp taken before the answer is released, computed back-off value (logged unscaled by the hook) <= maxretrydelay, no two attempts of one oid in flight, no adapter attempt when the latest batch answer carried an already expired action, batch submissions per oid <= 1+maxretries.",
